@@ -53,6 +53,7 @@ X_vi32_u16   == Flex(V_i32_u16, U16)            \* containers/src/flex.rs tests
 X_s8_u16     == Flex(S_u8, U16)
 X_vu8le_le   == Flex(Vec(U8, LeU16), LeU16)
 X_x_u8       == Flex(X_u8_u8, U8)
+X_unit_u16   == Flex(Unit, U16)                 \* zero-sized items: a sealed item's offset equals the slot size
 
 \* ---- unsized structs -----------------------------------------------------
 US1 == WithDefault(UStruct("US1", <<U8, U16, V_u64_u32>>), 1)          \* tests/unsized_struct
@@ -145,7 +146,7 @@ Core == <<
   C("S_u8", S_u8), C("S_u16", S_u16), C("S_u32", S_u32), C("S_leu16", S_leu16),
   C("X_u8_u8", X_u8_u8), C("X_u32_u8", X_u32_u8), C("X_bool_u16", X_bool_u16), C("X_vu8_u8", X_vu8_u8),
   C("X_vi32_u16", X_vi32_u16), C("X_s8_u16", X_s8_u16), C("X_vu8le_le", X_vu8le_le), C("X_x_u8", X_x_u8),
-  C("X_us2_u16", X_us2_u16), C("X_ue1_u8", X_ue1_u8),
+  C("X_us2_u16", X_us2_u16), C("X_ue1_u8", X_ue1_u8), C("X_unit_u16", X_unit_u16),
   C("US1", US1), C("US2", US2), C("US3", US3), C("US4", US4), C("US5", US5), C("US6", US6), C("US7", US7), C("US8", US8),
   C("UE1", UE1), C("UE2", UE2), C("UE3", UE3), C("UE4", UE4), C("UE5", UE5), C("UE6", UE6), C("UE7", UE7),
   C("UE8", UE8), C("UE9", UE9), C("UE10", UE10), C("UE11", UE11), C("UE12", UE12), C("UE13", UE13), C("UE14", UE14),
